@@ -229,6 +229,15 @@ def malformed_file(rng):
         # duplicate a name
         names = [n for n, _ in meta["records"]]
         return d.replace(b">" + names[-1].encode(), b">" + names[0].encode(), 1) if names[0] != names[-1] and (b"> " not in d) else b">a\nAC\n>a\nGT\n"
+    if m < 0.6:
+        # a name comes twice and one of its records has no sequence lines at all (its stored length is 0)
+        nl = rng.choice([b"\n", b"\n", b"\r\n"])
+        body = lambda: rng.choice([b"", b"", b"ACGT" + nl, b"GGNNCC" + nl + b"TT" + nl])  # noqa: E731
+        recs = [b">dup" + rng.choice([b"", b" first"]) + nl + rng.choice([b"", body()]), b">other" + nl + b"GGNNCC" + nl, b">dup" + nl + body()]
+        if rng.random() < 0.3:
+            recs.insert(rng.randint(0, 2), b">third" + nl + b"AC" + nl)
+        d = b"".join(recs)
+        return d if rng.random() < 0.7 or not d.endswith(nl) else d[: -len(nl)]
     return rng.choice([b"", b"\n", b"\n\n", b"\r\n"])
 
 
